@@ -109,18 +109,23 @@ def anyDeployment : List J → Except Err Bool
       | none => .error .unmodelled       -- KeyError in the generator expression: not described
   | _ :: _ => .error .unmodelled
 
-def isDRS (body : J) : Except Err Bool :=
-  match body.get? "kind" with
+/-- `kind == 'ReplicaSet' and any(owner['kind'] == 'Deployment' for owner in owners)`. -/
+def drsOf (kd : Option J) (oref : Option J) : Except Err Bool :=
+  match kd with
   | some (.str "ReplicaSet") =>
-      match body.get? "metadata" with
-      | some (.obj m) =>
-          match lookup "ownerReferences" m with
-          | none => .ok false
-          | some (.arr owners) => anyDeployment owners
-          | some _ => .error .unmodelled
-      | none => .ok false
-      | some _ => .error .typeError
+      (match oref with
+       | none => .ok false
+       | some (.arr owners) => anyDeployment owners
+       | some _ => .error .unmodelled)
   | _ => .ok false
+
+/-- `owners = body.meta.get('ownerReferences', [])` is read first (a non-mapping `metadata` is a
+    TypeError whatever the kind), then the kind decides. -/
+def isDRS (body : J) : Except Err Bool :=
+  match body.get? "metadata" with
+  | some (.obj m) => drsOf (body.get? "kind") (lookup "ownerReferences" m)
+  | none => drsOf (body.get? "kind") none
+  | some _ => .error .typeError
 
 def markKey (body : J) (key : List Char) : Except Err (List Char) := do
   if ← isDRS body then pure (key ++ "-ofDRS".toList) else pure key
